@@ -1,11 +1,12 @@
 import PlasVerif.Proofs.Config
 import PlasVerif.Proofs.ConfigDomain
+import PlasVerif.Proofs.ConfigDest
 /-!
 The converse direction of `Proofs/Config.lean`: inside the domain of the spec (every scalar file value converts,
 the denotation of every option is defined) none of the loops of `read` / `updateFromDict` raises.
 -/
 namespace PlasVerif.Proofs.ConfigTotal
-open PlasVerif.Model.Config PlasVerif.Spec.Config PlasVerif.Proofs.Config
+open PlasVerif.Model.Config PlasVerif.Spec.Config PlasVerif.Proofs.Config PlasVerif.Proofs.ConfigDest
 
 /-! ## conversions, spec ⇒ model -/
 
@@ -247,7 +248,7 @@ theorem cli_total {o : Opt} {cur : Val} {argv : List Occ} (h : (denCli o cur (cl
 
 /-- `updateFromDict` finishes when every option's own update does -/
 theorem updateFrom_total (T : Table) (argv : List Occ) : ∀ (os : List Opt) (k : Nat) (st : St),
-    (∀ (n : Nat) (o : Opt), os[n]? = some o → ∃ v, updateOpt o (st (k + n)) argv = .ok v) →
+    (∀ (n : Nat) (o : Opt), os[n]? = some o → ∃ v, updateOptD T o (st (k + n)) argv = .ok v) →
     ∃ st', updateFrom T argv os k st = .ok st' := by
   intro os
   induction os with
@@ -445,7 +446,7 @@ theorem mention_wf {T : Table} {files : List File} {i : Nat} {o : Opt} (hi : T[i
   simpa [hmo, hty] using this
 
 /-- inside the domain the modelled `client.main` raises nothing -/
-theorem run_total (T : Table) (hwf : WF T = true) (files : List File) (argv : List Occ)
+theorem run_total (T : Table) (hwf : WF T = true) (hwc : WFcli T = true) (files : List File) (argv : List Occ)
     (hdom : inDomain T files argv = true)
     (hden : ∀ i o, T[i]? = some o → (den T files argv i).isSome = true) :
     ∃ st, run false T files argv = .ok st := by
@@ -466,7 +467,9 @@ theorem run_total (T : Table) (hwf : WF T = true) (files : List File) (argv : Li
     have hf' := files_den (htd o (List.mem_of_getElem? hn)) h1
     simp only [mentions] at hf
     rw [hf] at hf'
-    rw [Nat.zero_add, ← Option.some.inj hf']
+    have hv : v = st1 n := Option.some.inj hf'
+    subst hv
+    rw [Nat.zero_add, updateOptD_eq hwc hn argv hp _ (denFiles_typed hf)]
     exact cli_total hc)
   exact ⟨st, by simp only [run, hp, hr, bind, Except.bind]; exact hu⟩
 
